@@ -24,12 +24,25 @@ def drive(ctx, fmt, n_cases, precisions, hostile=True, fixture_precisions=(), ke
             ctx.violation("%s/harness/generator-raises-%s" % (prop, type(e).__name__), traceback.format_exc()[-600:], {"i": i})
             continue
         ps = precisions(i)
+        # header information given to the WRITER overrides the scenario's (author, affiliation, source, tags)
+        meta = {}
+        if i % 5 == 2:
+            from commonroad.scenario.scenario import Tag
+            from vf.gen.scenarios import expressible
+            pool = [t for t in expressible(Tag, fmt, "tag", "Tag") if t not in (sc.tags or set())]
+            if pool:
+                meta = {"tags": set(rng.sample(pool, min(len(pool), rng.randint(1, 3)))), "author": "Writer's Author",
+                        "affiliation": "Writer's Affiliation", "source": "writer's source"}
+                if i % 10 == 2:
+                    from commonroad.scenario.scenario import Location
+                    meta["location"] = Location(rng.randint(1, 10 ** 6), 12.25, -33.5)
+                ctx.feature("writer-header-overrides-scenario")
         for d in ps:
             ctx.evaluation()
             ctx.feature("precision.%d" % d)
             ctx.case_wit = {"case": i, "precision": d, "fmt": fmt}
             try:
-                p = io.write(sc, pps, fmt, precision=d)
+                p = io.write(sc, pps, fmt, precision=d, **meta)
             except Exception as e:  # noqa
                 import traceback
                 tb = traceback.extract_tb(e.__traceback__)
